@@ -191,34 +191,37 @@ def r40_broadcast(facts):
         if len(lv) != 1 or len(ov) != 1:
             c.unk("dims:bindings", where, "loop pattern is not `(l, o)`")
             continue
-        # the refusal condition and the stored value, on the grid {1,2,3}^2
-        from .config_rules import _panics
-        conds = [n for n in walk(body) if n.get("k") == "If" and n.get("else") is None and _panics(n["then"])]
-        assigns = [n for n in walk(body) if n.get("k") == "Assign" and F.var_of(n["l"]) in (lv[0], ov[0])]
-        if len(conds) != 1 or len(assigns) != 1:
-            c.unk("dims:body", where, "expected one assertion and one assignment in the pairing loop (%d / %d)" % (len(conds), len(assigns)))
-            continue
+        # the loop body is *executed abstractly* on the nine orderings of {1,2,3}^2 by the small sequential interpreter of index_rules:
+        # it either panics (refusal) or leaves a value in the element of the updated vector
+        from .index_rules import ListEval, _Panic, Abstain as IAbstain
+        from .symalg import Frac as _Frac
         bad_c = bad_m = None
-        und = False
+        und = None
         for l in (1, 2, 3):
             for o in (1, 2, 3):
-                env = {lv[0]: l, ov[0]: o}
-                refuse = _int_eval(conds[0]["cond"], env)
-                val = _int_eval(assigns[0]["r"], env)
-                if refuse is None or val is None:
-                    und = True
+                le = ListEval(facts)
+                env = {lv[0]: ("s", _Frac(l)), ov[0]: ("s", _Frac(o))}
+                refused = False
+                try:
+                    le.ev(body, env)
+                except _Panic:
+                    refused = True
+                except (IAbstain, Unsupported, RecursionError) as ex:
+                    und = str(ex)
                     continue
                 want_refuse = not (l == o or l == 1 or o == 1)
-                if bool(refuse) != want_refuse and bad_c is None:
-                    bad_c = (l, o, refuse)
-                if not want_refuse and val != max(l, o) and bad_m is None:
-                    bad_m = (l, o, val)
-        if und:
-            c.unk("dims:condition", F.loc(b, conds[0]), "the refusal condition / stored value is outside the small integer evaluator")
+                if refused != want_refuse and bad_c is None:
+                    bad_c = (l, o, refused)
+                if not refused and not want_refuse:
+                    val = le.const(env[lv[0]]) if env[lv[0]][0] == "s" else None
+                    if val != max(l, o) and bad_m is None:
+                        bad_m = (l, o, val)
+        if und is not None:
+            c.unk("dims:condition", F.loc(b, body), "the pairing loop's body is outside the small interpreter (%s)" % und)
         else:
-            c.check(bad_c is None, "dims:condition", F.loc(b, conds[0]), "refuses exactly the pairs that are neither equal nor 1 (all 9 orderings of {1,2,3}^2)",
+            c.check(bad_c is None, "dims:condition", F.loc(b, body), "refuses exactly the pairs that are neither equal nor 1 (all 9 orderings of {1,2,3}^2)",
                     "for the pair (%s, %s) the operation %s, but right-aligned broadcasting says the opposite" % ((bad_c or (0, 0, 0))[0], (bad_c or (0, 0, 0))[1], "refuses" if (bad_c or (0, 0, True))[2] else "does not refuse"))
-            c.check(bad_m is None, "dims:maximum", F.loc(b, assigns[0]), "the result dimension is the pairwise maximum",
+            c.check(bad_m is None, "dims:maximum", F.loc(b, body), "the result dimension is the pairwise maximum",
                     "for the admissible pair (%s, %s) the result dimension is %s, not the maximum" % (bad_m or (0, 0, 0)))
         # the result starts from the longer vector
         ps = [p for p in facts.params(b) if p.get("pat")]
